@@ -41,8 +41,31 @@ fn run<K: Kmer>(reads: &[(DnaString, Exts, u8)], summ: &str, stranded: bool, rep
     )
 }
 
+/// `deep <K> <base> <nobs> <stranded> <summ> <label>`: one read of nobs + K - 1 equal bases
+fn deep<K: Kmer>(base: u8, nobs: usize, stranded: bool, summ: &str, label: u8) -> String {
+    let reads = vec![(DnaString::from_bytes(&vec![base; nobs + K::k() - 1]), Exts::empty(), label)];
+    let (kind, n) = summ.split_once(':').unwrap();
+    let n: usize = n.parse().unwrap();
+    let mut rows: Vec<String> = if kind == "count" {
+        let (map, _) = filter_kmers::<K, _, _, _, _>(&reads, &Box::new(CountFilter::new(n)), stranded, false, 4);
+        map.iter().map(|(k, e, d)| format!("{}:{:02x}:{}", kmer_digits(k), e.val, d)).collect()
+    } else {
+        let (map, _) = filter_kmers::<K, _, _, _, _>(&reads, &Box::new(CountFilterSet::new(n)), stranded, false, 4);
+        map.iter().map(|(k, e, d)| format!("{}:{:02x}:{}", kmer_digits(k), e.val, show_payload_vec(d))).collect()
+    };
+    rows.sort();
+    if rows.is_empty() { "-".into() } else { rows.join(",") }
+}
+
 /// `filter <K> <stranded> <reportall> <summ> <memsize> <bytesPerUnit> <sizeOfPair> <probes> <reads>`
 pub fn exec(a: &[&str]) -> String {
+    if a[0] == "deep" {
+        let k: usize = a[1].parse().unwrap();
+        let r = std::panic::catch_unwind(std::panic::AssertUnwindSafe(|| {
+            with_graph_kmer!(k, deep, a[2].parse().unwrap(), a[3].parse().unwrap(), a[4] == "1", a[5], a[6].parse().unwrap())
+        }));
+        return r.unwrap_or_else(|_| "panic".into());
+    }
     let k: usize = a[1].parse().unwrap();
     let reads = parse_reads(a[9]);
     let probes: Vec<Vec<u8>> = if a[8] == "-" { vec![] } else { a[8].split(';').map(digits).collect() };
@@ -61,6 +84,12 @@ fn size_of_pair<K: Kmer>() -> usize {
 }
 
 pub fn gen(rng: &mut Rng, tier: &str) -> String {
+    if rng.chance(1, 60) {
+        // one k-mer observed more than 2^20 times (or around 2^16): past any batch a summarizer may work in (cheap on the crate's side)
+        let nobs = if rng.chance(2, 3) { (1usize << 20) + *rng.pick(&[1usize, 1, 2, 3, 10, 4000]) } else { *rng.pick(&[65535usize, 65536, 65537, 131073]) };
+        let summ = if rng.chance(1, 2) { format!("set:{}", *rng.pick(&[1usize, 2, 3, 5, 50, 6000])) } else { format!("count:{}", *rng.pick(&[1usize, 3, 65535, 65536])) };
+        return format!("C05 deep {} {} {} {} {} {}", *rng.pick(&[4usize, 8, 16, 31, 32, 48]), rng.below(4), nobs, rng.below(2), summ, rng.below(3));
+    }
     let k = pick_k(rng, tier);
     // one homopolymer-dominated read of up to 70 000 bases now and then: more than 65 535 observations of one k-mer (saturation)
     let saturating = rng.chance(1, if tier == "thorough" { 200 } else { 150 });
